@@ -28,9 +28,17 @@ def run(tier):
     # the property speaks about the *instance handle* the object was built from: its markers are the
     # reference for objects, groups and Fwd wrappers built on it
     inst_base = {(x["i"], x["p"]): x["base"] for x in cells if x["w"] == "inst" and x["exists"]}
+    beyond = []
     for cell in cells:
         key = (cell["w"], cell["i"], cell["p"])
         if not cell["exists"]:
+            continue
+        if cell["w"] == "view":
+            # slices, vectors, option/result/tuple, callbacks, iterators: not objects, groups or smart pointers - the
+            # property says nothing about them; what the probe sees is kept as information
+            for m in ("Send", "Sync"):
+                if cell["base"][m] and not cell["std"][m]:
+                    beyond.append("%s over a %s payload is %s, its std counterpart is not" % (cell["i"], cell["p"], m))
             continue
         p = predicted.get(key)
         if p is None:
@@ -77,6 +85,8 @@ def run(tier):
                     c.drift("convertibility of %s/%s/%s: observed %s, ImplRules predict %s" % (cell["w"], cell["i"], cell["p"], cell["conv"], p["conv"]))
                 elif cell["conv"] and cell["opaque"][m] != p["opaque"][m]:
                     c.drift("opaque %s/%s/%s %s: observed %s, ImplRules predict %s" % (cell["w"], cell["i"], cell["p"], m, cell["opaque"][m], p["opaque"][m]))
+    c.cov["beyond_the_property_information_only"] = beyond
+    cells = [x for x in cells if x["w"] != "view"]
     c.sample(cells[0])
     c.sample([c2 for c2 in cells if c2["exists"] and c2["conv"] and c2["opaque"]["Send"] and not c2["base"]["Send"]][:1])
     c.assumptions += ["payload classes: u64 (Send+Sync), Cell<u64> (Send only), PhantomData<MutexGuard> (Sync only), Rc<u64> (neither)",
